@@ -164,11 +164,7 @@ def one_pair(rng, res, intern, stream, label):
     res.failures.append(Failure(key, f"C10 {label}: build_diff raised {type(e).__name__}: {e}", replay))
     return
   diff_before = repr(diff)
-  target = copy.deepcopy(old)
-  # keep objects shared by identity between old and new shared in the copy as well: apply to old itself
-  # when identity sharing is involved (the property speaks of a copy; sharing with new cannot be copied)
-  if "shares-identity" in kind:
-    target = old
+  target = copy.deepcopy(old)     # the property speaks of a copy of old: it shares nothing with new
   root_id = id(target)
   problems = []
   key = None
@@ -181,21 +177,14 @@ def one_pair(rng, res, intern, stream, label):
   if not problems:
     if id(target) != root_id:
       problems.append("the root lost its identity")
-    if "shares-identity" not in kind:
-      if canon(target) != canon(new):
-        problems.append("after apply_diff the copy of old differs from new in callables, arguments, tags or "
-                        "sharing")
-        if positional:
-          key = KNOWN_POSITIONAL
-    else:
-      try:
-        if not (target == new):
-          problems.append("after apply_diff old != new")
-      except Exception as e:  # pylint: disable=broad-except
-        problems.append(f"== raised {type(e).__name__}")
+    if canon(target) != canon(new):
+      problems.append("after apply_diff the copy of old differs from new in callables, arguments, tags or "
+                      "sharing")
+      if positional:
+        key = KNOWN_POSITIONAL
     if repr(diff) != diff_before:
       problems.append("apply_diff modified the diff")
-    if "shares-identity" not in kind and canon(new) != new_before:
+    if canon(new) != new_before:
       problems.append("apply_diff modified new")
   if kind == "deepcopy" and (diff.changes or diff.new_shared_values):
     problems.append("the diff between a configuration and its deep copy is not empty")
